@@ -27,6 +27,7 @@ type c15Op struct {
 	B    int    `json:"b,omitempty"`
 	V    int    `json:"v,omitempty"`
 	Vals []int  `json:"vals,omitempty"`
+	Last bool   `json:"last,omitempty"` // operate on the most recently produced handle (long derivation chains)
 }
 
 type c15Case struct {
@@ -94,6 +95,9 @@ func c15GenOp(r *Rand, hi int) c15Op {
 		n := r.Range(0, 5)
 		if hi > 6 {
 			n = r.Range(0, 14) // larger sets: size-dependent paths (buffers, thresholds)
+			if r.Chance(1, 4) {
+				n = r.Range(15, 30)
+			}
 		}
 		for i := 0; i < n; i++ {
 			if i > 0 && r.Chance(1, 3) {
@@ -101,6 +105,12 @@ func c15GenOp(r *Rand, hi int) c15Op {
 			} else {
 				o.Vals = append(o.Vals, r.Range(-2, hi))
 			}
+		}
+		switch r.Intn(6) { // particular argument orders
+		case 0:
+			sort.Ints(o.Vals)
+		case 1:
+			sort.Sort(sort.Reverse(sort.IntSlice(o.Vals)))
 		}
 	case "newmap":
 		n := r.Range(0, 4)
@@ -135,8 +145,14 @@ func (*c15Prop) Gen(r *Rand, pl *Plan) Case {
 	}
 	if pl.Variant == 0 {
 		n := r.Range(2, size)
+		chain := r.Chance(1, 5) // a long chain: every operation is applied to the latest value
+		if chain {
+			n = r.Range(size/2, size+10)
+		}
 		for i := 0; i < n; i++ {
-			c.Ops = append(c.Ops, c15GenOp(r, hi))
+			o := c15GenOp(r, hi)
+			o.Last = chain && r.Chance(4, 5)
+			c.Ops = append(c.Ops, o)
 		}
 		return c
 	}
@@ -289,6 +305,9 @@ func sliceCapSlack(v interface{}) bool {
 func (p *c15Pool) apply(o c15Op, probes map[string]int64) (class, detail string, derived bool) {
 	sa, sb := o.A%len(p.sets), o.B%len(p.sets)
 	ma := o.A % len(p.maps)
+	if o.Last {
+		sa, ma = len(p.sets)-1, len(p.maps)-1
+	}
 	switch o.Op {
 	case "newset":
 		// never hand the case's own slice to the library: spread a caller-owned copy
